@@ -276,7 +276,8 @@ def unnum(x):
 
 
 NUMS = [("num", "0", "0"), ("num", "7", "7"), ("num", "-3", "-3"), ("num", "42", "42"), ("num", "1.5", "1.5"), ("num", "2.50", "2.5"),
-        ("num", "0.25", "0.25"), ("num", "100", "100"), ("num", "12345678901", "12345678901"), ("num", "-0.5", "-0.5")]
+        ("num", "0.25", "0.25"), ("num", "100", "100"), ("num", "12345678901", "12345678901"), ("num", "-0.5", "-0.5"),
+        ("num", "12345678901234567890", "12345678901234567890"), ("num", "-9223372036854775808", "-9223372036854775808")]
 JKEYS = ["level", "msg", "status", "app", "n", "dur", "user.name", "http-status", "9lives", "a b", "é", "nested", "list", "size", "addr"]
 SVALS = ["info", "error", "warn", "", "GET /a", "a=b", 'q"uote', "back\\slash", "5", "5.5", "1m30s", "250ms", "5KB", "10.0.0.1", "ünï", "x y z", "new\nline"]
 
@@ -385,7 +386,7 @@ class LFLine:
             parts.append(lf_render(rng, k, v))
         self.err = False
         if malform:
-            i = rng.randint(0, n)
+            i = n        # an unterminated quote swallows whatever follows it: only at the end is the outcome unambiguous
             parts = parts[:i] + ['bad="unterminated'] + parts[i:]
             self.pairs = self.pairs[:i]
             self.err = True
